@@ -27,9 +27,7 @@ def is_opaque(x):
 
 
 # ---- sequences of strings.  Natively plain Python; in proofs `prefix_join` is a measure of the list
-# (pyvc.texts: an uninterpreted prefix function with its defining equations instantiated where needed)
-# and `yielded` runs an interpreted generator to completion, collecting what it yields in the ghost
-# list `_yielded` (visible to the loop invariants of the generator function).
+# (pyvc.texts: an uninterpreted prefix function with its defining equations instantiated where needed).
 
 def prefix_join(xs, i):
     """xs[0] + ... + xs[i-1]"""
@@ -38,11 +36,6 @@ def prefix_join(xs, i):
 
 def join_of(xs):
     return prefix_join(xs, len(xs))
-
-
-def yielded(g):
-    """everything the generator / iterator g yields (from its current position), as a list"""
-    return list(g)
 
 
 def is_find(i, s, sub):
@@ -75,3 +68,8 @@ def peek(it):
     if isinstance(it, (list, tuple)):
         return list(it)
     raise TypeError('peek: not a spec-level iterator: %r' % (it,))
+
+
+def items_of(it):
+    """the (remaining) items of an iterator or sequence, as a list"""
+    return list(it)
